@@ -460,3 +460,33 @@ func scopeFactsAtPos(d, sd *astx.DeclInfo, p token.Pos) []astx.Fact {
 	}
 	return fs
 }
+
+// onceEach reports whether each named callee is called exactly once in d's own body (what the
+// rules keyed on d read their facts from). When it is not, it records the obligation itself:
+// a callee that is no longer called anywhere in d or its direct helpers is a violation (msg);
+// calls that were moved into a helper or duplicated are an unrecognised shape.
+func onceEach(c *core.Ctx, d *astx.DeclInfo, rule, key, msg string, names ...string) bool {
+	info := d.Pkg.TypesInfo
+	all := true
+	for _, n := range names {
+		if len(callsTo(info, d.Decl.Body, named(n))) != 1 {
+			all = false
+		}
+	}
+	if all {
+		return true
+	}
+	scope := fnScope(c, d, 1)
+	var gone []string
+	for _, n := range names {
+		if len(scopeCalls(scope, named(n))) == 0 {
+			gone = append(gone, n)
+		}
+	}
+	if len(gone) > 0 {
+		c.Fail(rule, key, pos(c, d.Decl), msg+" (no call of "+strings.Join(gone, ", ")+")")
+	} else {
+		c.Unrecognised(rule, key, pos(c, d.Decl), "the calls "+strings.Join(names, ", ")+" are no longer made once each in "+d.Obj.Name()+" itself (moved into a helper or duplicated): the rule is not evaluated")
+	}
+	return false
+}
